@@ -18,6 +18,27 @@ pub struct Report {
 const PW: [&[u8]; 2] = [b"helloworld", b"pw"];
 pub const OUT_CAP: usize = 1 << 20;
 
+/// True if any local header, central header or WinZip-AES extra record in `data` names compression
+/// method 12 (Bzip2). The coverage-guided campaigns leave such inputs out: they would otherwise keep
+/// rediscovering the known finding bzip2-c-decoder-uninitialised-read (a crash inside libbz2) and stop.
+pub fn mentions_bzip2(data: &[u8]) -> bool {
+    let le16 = |i: usize| data.get(i + 1).map(|hi| (data[i] as u16) | ((*hi as u16) << 8));
+    for i in 0..data.len().saturating_sub(3) {
+        if data[i] == b'P' && data[i + 1] == b'K' {
+            if data[i + 2] == 3 && data[i + 3] == 4 && le16(i + 8) == Some(12) {
+                return true;
+            }
+            if data[i + 2] == 1 && data[i + 3] == 2 && le16(i + 10) == Some(12) {
+                return true;
+            }
+        }
+        if data[i] == 0x01 && data[i + 1] == 0x99 && le16(i + 9) == Some(12) {
+            return true;
+        }
+    }
+    false
+}
+
 pub fn mem_bound(len: usize) -> usize {
     512 * len + (2 << 20)
 }
